@@ -801,6 +801,11 @@ def replay(run, path):
     with open(path) as f:
         rep = json.load(f)
     case = rep.get('case', rep)
+    if 'module' not in case:
+        # an obligation-only replay file (no failing input was found): re-run the whole check
+        print(json.dumps(rep, indent=1)[:3000])
+        check(run)
+        return run.finish()
     print(json.dumps({k: v for k, v in case.items() if k != 'module'}, indent=1)[:3000])
     bad = check(run, only_case=case)
     for b in bad:
